@@ -1,6 +1,6 @@
 (* C02 -- Reported workflow status is truthful about the tasks.  Property theorems only. *)
 From Coq Require Import String List Bool.
-From Orq Require Import GenStatuses GenTables Base State Machines Conductor Api F_tables F_names C02C03Proofs C09C10Proofs.
+From Orq Require Import GenStatuses GenEvents GenTables Base State Machines Conductor Api F_tables F_names F_classes C02C03Proofs C09C10Proofs.
 Import ListNotations.
 Open Scope string_scope.
 
@@ -56,6 +56,21 @@ Theorem C02_active_events_keep_going : forall s e t, tbl_step wf_table s e = Som
   contains "_workflow_active" e = true -> ~ In t [S_PAUSED; S_CANCELED; S_SUCCEEDED].
 Proof. exact F_wf_active_keeps. Qed.
 Print Assumptions C02_active_events_keep_going.
+
+(* [F] the status sets classify every status the task table can produce: completed, active (counted as
+   running by has_active_tasks), or one of the three dormant ones (paused, pending, retrying); and a report that
+   says the action is in progress (started, running, resuming, being paused or canceled) always leaves the
+   task counted as active (or already finished) -- "in flight" at the provider is "active" in the conductor *)
+Theorem C02_status_classes : forall s e t, tbl_step task_table s e = Some t ->
+  In t COMPLETED_STATUSES \/ In t ACTIVE_STATUSES \/ In t [S_PAUSED; S_PENDING; S_RETRYING].
+Proof. exact F_task_status_classes. Qed.
+Print Assumptions C02_status_classes.
+
+Theorem C02_in_progress_report_is_active : forall s st t, In st in_progress_statuses ->
+  tbl_step task_table s (ACTION_EVENT_PREFIX ++ status_name st) = Some t ->
+  In t ACTIVE_STATUSES \/ In t COMPLETED_STATUSES.
+Proof. exact F_in_progress_report_is_active. Qed.
+Print Assumptions C02_in_progress_report_is_active.
 
 (* NOT PROVED (tested by monitor c02 under the provider protocol): the link between the conductor's
    notion of an active task execution and the provider's set of in-flight actions. *)
